@@ -38,6 +38,8 @@ def case(ctx, rng, idx, state):
     periodic = (True, True, False) if twoD else (True, True, True)
     system = gen_systems.herm_system(rng, num_wann=nw, radius=rng.uniform(1.0, 2.2), keys=keys, centers=["random", "groups", "outside"][int(rng.integers(3))],
                                      periodic=periodic)
+    system, hist = gen_systems.history_variant(rng, system, which=gen_systems.HISTORIES_NO_DISK[idx % 4])   # state reached through the API first
+    ctx.count(f"history_{hist}")
     choices = [2, 3, 4, 6] if not ctx.thorough else [2, 3, 4, 6, 8]
     N = [int(rng.choice(choices)) for _ in range(3)]
     if twoD:
